@@ -970,8 +970,9 @@ impl Model for TimeModel {
             sys.fsm.state(Role::Active),
             rel(sys.hold),
             rel(sys.ka),
-            sys.now - sys.last_rx,
-            sys.now - sys.last_tx,
+            // the ages only matter while the timer they are measured against is armed
+            if sys.hold.is_some() { sys.now - sys.last_rx } else { 0 },
+            if sys.ka.is_some() { sys.now - sys.last_tx } else { 0 },
             sys.open_done,
             sys.down,
             sys.broken
@@ -986,11 +987,12 @@ impl Model for TimeModel {
 
 fn c08_models() -> Vec<TimeModel> {
     let mut v = Vec::new();
-    for local in [0u64, 3, 9, 90, 65535] {
-        for remote in [0u16, 3, 9, 90, 65535] {
+    for local in [0u64, 3, 4, 10, 90, 180, 65535] {
+        for remote in [0u16, 3, 4, 10, 90, 180, 65535] {
             let h = local.min(remote as u64);
-            let mut deltas: Vec<u64> = if h == 0 { vec![1, 30, 239, 240, 1000] } else { vec![1, h / 3, h.saturating_sub(1), h] };
-            deltas.retain(|d| *d > 0);
+            // delta 0 = the event arrives at the current instant (after the timers due now were served):
+            // with a keepalive interval of 1 s (hold 3) every positive delta crosses a deadline
+            let mut deltas: Vec<u64> = if h == 0 { vec![0, 1, 30, 239, 240, 1000] } else { vec![0, 1, h / 3, h.saturating_sub(1), h] };
             deltas.sort();
             deltas.dedup();
             let mut ops = vec![TOp::Connected, TOp::OpenRx, TOp::Fire];
@@ -1182,11 +1184,14 @@ pub(crate) fn run_c08(replay: Option<&str>) -> Report {
         rep.evaluations = 1;
         return rep;
     }
-    let depth = if rep.thorough() { 14 } else { 7 };
-    rep.rule = format!("BFS over timed traces of the real PeerFsm under the driver's timer interpretation (virtual time); 25 (local,remote) hold-time pairs from {{0,3,9,90,65535}}²; steps: connect, OPEN rx, fire earliest timer, advance δ∈{{1,h/3,h-1,h}} then KEEPALIVE/UPDATE/ROUTE-REFRESH rx or update-sent; depth {depth}; oracle: interval reference (hold deadline = last rx + min(local,remote); keepalive deadline = last tx + h/3; zero ⇒ no timer armed, no expiry); non-trivial = distinct canonical (state, relative deadlines) tuple");
+    let depth = if rep.thorough() { 400 } else { 12 };
+    rep.rule = format!("BFS over timed traces of the real PeerFsm under the driver's timer interpretation (virtual time); 49 (local,remote) hold-time pairs from {{0,3,4,10,90,180,65535}}²; steps: connect, OPEN rx, fire earliest timer, advance δ∈{{0,1,h/3,h-1,h}} then KEEPALIVE/UPDATE/ROUTE-REFRESH rx or update-sent; depth {depth}; oracle: interval reference (hold deadline = last rx + min(local,remote); keepalive deadline = last tx + h/3; zero ⇒ no timer armed, no expiry); non-trivial = distinct canonical (state, relative deadlines) tuple");
     rep.notes.push("assume: the driver interprets Set*Timer(n) as 'replace the pending sleep with now+n' (PeerSession::apply_outputs) and serves hold before keepalive before received messages (select_biased order in run_select)".into());
     for m in &models {
-        let cfg = BfsCfg { max_depth: depth, max_secs: 900, ..Default::default() };
+        // negotiated 65535: one new age per second for 18 hours - a chain far longer than any useful
+        // bound; it is cut at depth 60 (depth-bound, reported as such), all other models run to fixpoint
+        let d = if m.negotiated() == 65535 { depth.min(60) } else { depth };
+        let cfg = BfsCfg { max_depth: d, max_secs: 900, ..Default::default() };
         bfs::bfs(m, &cfg, &mut rep);
     }
     let thorough = rep.thorough();
